@@ -51,14 +51,26 @@ func (t *inProcessTransport) Send(ctx context.Context, e envelope) error {
 }
 
 func (t *inProcessTransport) Receive(ctx context.Context) (envelope, error) {
-	if !t.Connected() {
+	// As in a network connection, the envelopes that were sent before
+	// the closing of the transport are still delivered.
+	select {
+	case e := <-t.envChan:
+		return e, nil
+	default:
+	}
+	if t.isClosed() {
 		return nil, errors.New("transport is closed")
 	}
 	select {
 	case <-ctx.Done():
 		return nil, fmt.Errorf("receive: %w", ctx.Err())
 	case <-t.done:
-		return nil, errors.New("transport was closed while receiving")
+		select {
+		case e := <-t.envChan:
+			return e, nil
+		default:
+			return nil, errors.New("transport was closed while receiving")
+		}
 	case e := <-t.envChan:
 		return e, nil
 	}
@@ -108,7 +120,9 @@ func (t *inProcessTransport) SetEncryption(context.Context, SessionEncryption) e
 func (t *inProcessTransport) Connected() bool {
 	t.mu.RLock()
 	defer t.mu.RUnlock()
-	return !t.closed
+	// A closed transport that still holds envelopes sent by the remote party before
+	// the closing is considered connected until they are received.
+	return !t.closed || len(t.envChan) > 0
 }
 
 func (t *inProcessTransport) isClosed() bool {
